@@ -59,11 +59,23 @@ def rand_config(rng, names, allow_default=True):
         for nm in names:
             if str(nm) not in mapping and (not allow_default or rng.random() < 0.8):
                 mapping[str(nm)] = {'__cls__': FAM[rand_family(rng, fast=True)]}
-    return {'form': 'dict', 'ctor': {'distribution': {'__map__': mapping}}}
+    return {'form': 'dict', 'ctor': {'distribution': {
+        '__map__': mapping, '__mapkind__': zoo.mapkind_for(sorted(mapping), len(names))}}}
 
 
 def _rand_instance(rng):
     r = rng.random()
+    if r < 0.08:
+        # one-sided truncation: only one of the two bounds is configured, the other one is
+        # taken from the data
+        return {'__inst__': FAM['truncated'],
+                'ctor': rng.choice([{'minimum': -1e6}, {'maximum': 1e6}])}
+    if r < 0.16:
+        # weighted kernel estimate; the number of weights is the number of training rows
+        # (filled in when the table is built)
+        return {'__inst__': FAM['kde'], 'ctor': {'weights': {
+            '__gen__': 'weights', 'seed': rng.randrange(1000),
+            'kind': rng.choice(['tilt', 'sparse', 'int'])}}}
     if r < 0.3:
         return {'__inst__': FAM['kde'], 'ctor': {'bw_method': rng.choice(['scott', 'silverman'])}}
     if r < 0.5:
@@ -79,14 +91,46 @@ def _rand_instance(rng):
         'bounded': {'__enum__': [UNI + 'base', 'BoundedType', 'BOUNDED']}}}
 
 
-def fix_dict_keys(ctor, names):
-    """JSON turned int column names into strings: map them back."""
-    ctor = zoo.decode_ctor(ctor)
+def _fill_rows(spec, n_rows):
+    """Generated per-row options (kernel weights) get the number of training rows."""
+    if isinstance(spec, dict):
+        out = {k: _fill_rows(v, n_rows) for k, v in spec.items()}
+        if out.get('__gen__') == 'weights' and 'n' not in out:
+            out['n'] = n_rows
+        return out
+    if isinstance(spec, list):
+        return [_fill_rows(v, n_rows) for v in spec]
+    return spec
+
+
+def fix_dict_keys(ctor, names, n_rows=None):
+    """JSON turned int column names into strings: map them back (keeping the caller's mapping
+    type)."""
+    ctor = zoo.decode_ctor(_fill_rows(ctor, n_rows))
     dist = ctor.get('distribution')
     if isinstance(dist, dict):
         by_str = {str(n): n for n in names}
-        ctor['distribution'] = {by_str.get(k, k): v for k, v in dist.items()}
+        ctor['distribution'] = type(dist)((by_str.get(k, k), v) for k, v in dist.items())
     return ctor
+
+
+def kde_reference_cdf(inst, xs):
+    """The law of a fitted kernel estimate, from its PARAMETERS alone: the weighted mixture
+    sum_i w_i Phi((x - x_i) / h) over the stored dataset, h and w_i taken from a scipy kernel
+    estimate built here from (dataset, bw_method, weights) - not from the instance's cdf."""
+    from scipy.stats import gaussian_kde
+    params = inst.to_dict()
+    data = np.asarray(params['dataset'], dtype=float)
+    w = params.get('weights')
+    ref = gaussian_kde(data, bw_method=params.get('bw_method'),
+                       weights=None if w is None else np.asarray(w, dtype=float))
+    h = float(np.sqrt(ref.covariance[0, 0]))
+    xs = np.asarray(xs, dtype=float)
+    out = np.empty(len(xs))
+    for i in range(0, len(xs), 256):
+        blk = xs[i:i + 256]
+        out[i:i + 256] = stats.norm.cdf((blk[:, None] - data[None, :]) / h).dot(ref.weights)
+    return out
 
 
 def build_fitted(run):
@@ -97,7 +141,7 @@ def build_fitted(run):
     if run.get('as_array'):
         train = df.to_numpy()
         df = pd.DataFrame(train)
-    ctor = fix_dict_keys(run['config']['ctor'], list(df.columns))
+    ctor = fix_dict_keys(run['config']['ctor'], list(df.columns), n_rows=len(df))
     seed = zoo.make_seed(run.get('seed'))
     if seed is not None:
         ctor['random_state'] = seed
